@@ -14,6 +14,7 @@ import subprocess
 import time
 
 import actor_trace
+import dist_trace
 import vlib
 
 RUSTFLAGS = "--cfg datacake_verif --check-cfg cfg(datacake_verif)"
@@ -92,6 +93,47 @@ def validate(ctx, files, name, props, max_events=None):
             "tlc_states": r["states"], "tlc_wall_s": r["wall_s"], "cmd": r["cmd"]}
 
 
+def validate_distributors(ctx, files, name):
+    """Task-distributor events of the same recordings against Distributor.tla (exactly once, FIFO per keyspace).
+    The distributor is not the subject of a listed property: differences are reported as drift."""
+    norm = ctx.path(name + "_dist.ndjson")
+    stats = dist_trace.normalise(files, norm)
+    if stats["batches"] == 0:
+        return dict(stats, validated=False)
+    cfg = vlib.cfg_text(spec="TSpec", constants=dict(Items=set(), Nodes=set(), MaxOps=0), postcondition="Accepted",
+                        invariants=["Report"], substitutions={"Keyspaces": "TraceKeyspaces"})
+    parsed, text = vlib.run_tlc(ctx, "Trace_Distributor", cfg, name + "_dist", workers=1, timeout=1200, env={"TRACE": norm},
+                                dfs_queue=True, xss="1g", xmx="2g")
+    drift = None
+    for line in text.splitlines():
+        if line.startswith('<<"DRIFT", '):
+            drift = json.loads(json.loads(line[len('<<"DRIFT", '):-2]))
+    if drift is None:
+        raise vlib.ToolError("Trace_Distributor did not finish on %s:\n%s" % (norm, "\n".join(text.splitlines()[-20:])))
+    ctx.log("%s: %d batches of %d distributors (%d mutations handed in) validated against Distributor.tla, drift %d" % (
+        name, stats["batches"], stats["distributors"], stats["mutations_handed_in"], drift["count"]))
+    # binding demonstration: a copy of the trace with one document removed from one batch must be noticed
+    lines = open(norm).read().splitlines()
+    noticed = None
+    for i, ln in enumerate(lines):
+        e = json.loads(ln)
+        if e.get("ev") == "batch" and (e["modified"] or e["removed"]):
+            g = (e["modified"] or e["removed"])[0]
+            g["items"] = g["items"][1:]
+            lines[i] = json.dumps(e, separators=(",", ":"))
+            bad = ctx.path(name + "_dist_corrupted.ndjson")
+            with open(bad, "w") as f:
+                f.write("\n".join(lines) + "\n")
+            p2, t2 = vlib.run_tlc(ctx, "Trace_Distributor", cfg, name + "_dist_corrupted", workers=1, timeout=1200, env={"TRACE": bad},
+                                  dfs_queue=True, xss="1g", xmx="2g")
+            noticed = any(l.startswith('<<"DRIFT", ') and json.loads(json.loads(l[len('<<"DRIFT", '):-2]))["count"] > 0
+                          for l in t2.splitlines())
+            if not noticed:
+                raise vlib.ToolError("binding demonstration failed: a batch with a missing document was accepted by Trace_Distributor")
+            break
+    return dict(stats, validated=True, drift_events=drift["count"], drift_samples=drift["events"][:3], corrupted_copy_noticed=noticed)
+
+
 def binding_demo(ctx, files, name):
     """Corrupts one logged stamp of a copy of the trace: the specification has to notice."""
     norm = ctx.path(name + ".ndjson")
@@ -127,4 +169,5 @@ def run_repo_tests(ctx, props, packages=None):
     cov = validate(ctx, files, "repo_tests_actor_trace", props)
     cov["own_tests"] = tests
     cov["binding_demo"] = binding_demo(ctx, files, "repo_tests_actor_trace")
+    cov["distributor_trace"] = validate_distributors(ctx, files, "repo_tests")
     return cov
